@@ -434,10 +434,9 @@ struct Truth
    RefResult ref;
 };
 
-inline LPModel perturbed(const LPModel& M, int dir /* +1 relax, -1 tighten */)
+inline LPModel perturbed(const LPModel& M, int dir /* +1 relax, -1 tighten */, const Q& base = Q(1) / Q(10000))
 {
    LPModel P = M;
-   Q base = Q(1) / Q(10000);
    auto delta = [&](const Q & v) { return Q(base * (1 + qabs(v))); };
    for(int j = 0; j < M.n; j++)
    {
